@@ -294,8 +294,9 @@ fn cmd_place(prop: &str) -> i32 {
     let rule = "N: real crate, worker process with ASLR off; generated (target address class incl. in-page offset, 0-3 earlier installations on the same function, dictated trampoline page in +/-128 MiB, fake displacement from the trampoline incl. +/-2^31 edge and far, API flavour, caller threads); entry and trampoline decoded by the mini-decoder, then really called; non-trivial = installed-and-called case that is page-straddling, below 128 MiB, uses the long trampoline form, has a fake displacement within 16 of +/-2^31, or is a re-fake of a function faked 1-3 times before through the same injector; distinct by (target, trampoline page, fake, flavour)";
     let mut rec = Recorder::new(prop, "n-place", rule);
     rec.assumptions.push("x86-64 Linux host; symbol interposition of mmap/munmap/mprotect/__clear_cache by the executable (calibrated at worker start)".into());
-    let n = cases(4800, 160_000);
-    run_sharded(&mut rec, 1, n, shards(), "place", Value::Null, Duration::from_secs(20), place::strategy, judge_place, |c| json!({"PlaceCase": c}));
+    let only_async = std::env::args().any(|a| a == "--only-async");
+    let n = if only_async { cases(1600, 60_000) } else { cases(4800, 160_000) };
+    run_sharded(&mut rec, 1, n, shards(), "place", Value::Null, Duration::from_secs(20), move || place::strategy_sel(only_async), judge_place, |c| json!({"PlaceCase": c}));
     rec.finish(&out_path())
 }
 
@@ -422,7 +423,7 @@ fn cmd_hist(prop: &str) -> i32 {
     match prop {
         "C03" => {
             let n = cases(800, 16_000);
-            run_sharded(&mut rec, 3, n, shards(), "hist", optv, Duration::from_secs(120), || hist::strategy(2, 4, true), hist_judge::judge_c03, |c| json!({"HistCase": c, "opts": "C03"}));
+            run_sharded(&mut rec, 3, n, shards(), "hist", optv, Duration::from_secs(120), || hist::strategy_all(3, 4, true, false, 0.0, 0.3), hist_judge::judge_c03, |c| json!({"HistCase": c, "opts": "C03"}));
         }
         "C12" => {
             let n = cases(1200, 12_000);
